@@ -132,10 +132,85 @@ def rule_decomposition(repo, rule):
                 if norm(comp.elt) in ("%s * (1 << %s)" % (b, i), "(1 << %s) * %s" % (i, b), "%s * 2 ** %s" % (b, i), "%s << %s" % (b, i),
                                       "2 ** %s * %s" % (i, b)):
                     ok = True
+    if not ok:
+        ok = _accumulator_weights(fb)
     if ok:
         rule.ok(fb.loc(), fb.fq, norm(rets[0].value), "bit i weighted by 2^i (same index from enumerate)")
     else:
         rule.violation(fb.loc(), fb.fq, norm(rets[0].value) if rets else "", "recomposition does not weight bit i by 2^i", "from_bits/weights")
+
+
+def _accumulator_weights(fb):
+    """from_bits written as a loop with running totals: in one iteration over (i, bit) of enumerate(bits), on every path
+    through the body, whatever is added to a running total on account of the bit is  bit * 2^i  - nothing else mentions the
+    bit (terms without the bit, e.g. a constant carried over, are not this rule's business).  The totals are what is returned."""
+    from ..seqs import seq_of
+    from ..hints import Valuer, paths_to, all_cases, pre_assume, replay, Undecidable
+    from ..poly import P as _P
+    from ..loader import clone
+    bitsp = fb.params[-1]
+    loops = [s for s in fb.node.body if isinstance(s, ast.For)]
+    if len(loops) != 1:
+        return False
+    lp = loops[0]
+    sq = seq_of(lp.iter, lp, 0)
+    if sq is None or sq.base != bitsp or sq.rev or norm(sq.elt) != "(__i0, __e0)" or not isinstance(lp.target, ast.Tuple) \
+            or len(lp.target.elts) != 2 or not all(isinstance(t, ast.Name) for t in lp.target.elts):
+        return False
+    iv, bv = lp.target.elts[0].id, lp.target.elts[1].id
+    body = [clone(s) for s in lp.body]
+
+    class _C(ast.NodeTransformer):
+        def visit_Continue(self, n):
+            return ast.copy_location(ast.Return(value=None), n)
+
+        def visit_For(self, n):
+            return n
+
+        def visit_While(self, n):
+            return n
+    body = [_C().visit(s) for s in body] + [ast.Return(value=None)]
+    fn = ast.FunctionDef(name="_iteration", args=ast.arguments(posonlyargs=[], args=[], kwonlyargs=[], kw_defaults=[], defaults=[]),
+                         body=body, decorator_list=[])
+    ast.fix_missing_locations(fn)
+    for n in ast.walk(fn):
+        for c in ast.iter_child_nodes(n):
+            c._parent = n
+    assigned = {x.id for s in lp.body for x in ast.walk(s) if isinstance(x, ast.Name) and not isinstance(x.ctx, ast.Load)} - {bv}
+    rets = [n for n in ast.walk(fb.node) if isinstance(n, ast.Return) and n.value is not None]
+    returned = {x.id for r in rets for x in ast.walk(r.value) if isinstance(x, ast.Name)}
+    totals = assigned & returned
+    if not totals:
+        return False
+    seen = 0
+    for r in [n for n in ast.walk(fn) if isinstance(n, ast.Return)]:
+        for path in paths_to(fn, r):
+            def assumptions(path=path):
+                env = {t: _P.sym("pre_" + t) for t in assigned}
+                env[bv] = _P.sym("bit")
+                env[iv] = _P.sym("i")
+                v = Valuer(env)
+                pre_assume(v, path)
+                return v
+
+            def build(v, path=path):
+                replay(v, path)
+                bad = _P()
+                for t in sorted(totals):
+                    cur = v.env.get(t)
+                    if not isinstance(cur, _P):
+                        raise Undecidable("total %s" % t)
+                    d = cur - _P.sym("pre_" + t)
+                    # the part of the update that mentions the bit must be bit * 2^i exactly (or absent)
+                    part = _P({m: c for m, c in d.t.items() if any(s == "bit" or "bit" in s.split("(")[-1] for s, _e in m)})
+                    if not part.is_zero() and part != _P.sym("bit") * _P.sym("pow2(i)"):
+                        bad = bad + part + _P.sym("wrong_weight_in_%s" % t)
+                return bad
+            for _d, res, _v in all_cases(build, assumptions):
+                seen += 1
+                if isinstance(res, str) or not res.is_zero():
+                    return False
+    return seen > 0
 
 
 def method(ci, name):
